@@ -229,3 +229,26 @@ Definition file_ops (parent : N) (f : mfile) : list op :=
 (* the ids a peer index table of n entries gets when the counter stands at s *)
 Fixpoint nseq (s : N) (n : nat) : list N :=
   match n with O => [] | S n' => s :: nseq (s + 1)%N n' end.
+
+(* ---- queues in which every peer-index entry names a peer that has no id yet ---- *)
+Definition dump_op (parent file : N) (p : mpeer) : op := OForPeer (dump_info parent file p).
+(* freshness of the table's peers, entry after entry *)
+Fixpoint peers_fresh (parent file : N) (r : reg) (ps : list mpeer) : Prop :=
+  match ps with
+  | [] => True
+  | p :: ps' => reg_find_peers r (mrt_query parent p) = [] /\
+                peers_fresh parent file (step r (dump_op parent file p)).1 ps'
+  end.
+Definition file_fresh (parent : N) (r : reg) (f : mfile) : Prop :=
+  match f with FGood name (RPit ps :: _) => peers_fresh parent name r ps | _ => True end.
+Fixpoint queue_fresh (parent : N) (r : reg) (fs : list mfile) : Prop :=
+  match fs with
+  | [] => True
+  | f :: fs' => file_fresh parent r f /\ queue_fresh parent (process_file parent r f).1.1 fs'
+  end.
+(* the register operations of any file *)
+Definition all_ops (parent : N) (f : mfile) : list op :=
+  match f with
+  | FGood name (RPit ps :: _) => map (dump_op parent name) ps
+  | _ => file_ops parent f
+  end.
